@@ -23,6 +23,11 @@ let () =
       let base = max timeout 250 in
       (* expected status per token from the name prefix *)
       let expected = List.filter_map (fun st -> match split_on ':' st with
+        | ["qc"; tk; name; ftk; fname] ->
+          (* both the request and its follow-up; returned as the first, the follow-up is added below *)
+          ignore (ftk, fname);
+          let s = if starts_with "ans" name then 0 else if starts_with "sil" name then 12 else if starts_with "srvfail" name then 3 else -1 in
+          Some (int_of_string tk, s)
         | ["q"; tk; name] | ["qs"; tk; name; _] ->
           let s = if starts_with "ans" name then 0 else if starts_with "sil" name then 12 else if starts_with "srvfail" name then 3 else -1 in
           Some (int_of_string tk, s)
@@ -45,6 +50,10 @@ let () =
          let toks = List.tl (split_on ' ' r) in
          List.iter (fun t ->
            match split_on '=' t with
+           | ["bgwait"; v] ->
+             (match split_on ':' v with
+              | [rc; pending] -> if rc = "0" && pending <> "0" then Printf.printf "FAIL %d waitempty-nonempty a concurrent ares_queue_wait_empty returned success while %s request(s) issued before it returned (from inside a completion callback) had not completed\n" k pending
+              | _ -> ())
            | ["waitempty"; v] ->
              (match split_on ':' v with
               | [rc; pending] -> if rc = "0" && pending <> "0" then Printf.printf "FAIL %d waitempty-nonempty rc=0 with %s requests outstanding\n" k pending
